@@ -30,6 +30,9 @@ def run(ctx: CheckContext):
     pt = "OpenPinch/classes/problem_table.py"
     run_control(ctx, "C08/neighbours-from-one-end", analyse, p.root, pt,
                 "            upper_pos = orig_positions.get(lower_idx - 1)\n            lower_pos = orig_positions.get(lower_idx)", "            upper_pos = positions[0] - 1\n            lower_pos = positions[0] + 1", "BLOCK-ENDS")
+    run_control(ctx, "C08/memo-not-dropped-by-writers", analyse, p.root, pt, "    def delete_row(self, index: int):\n",
+                "    _col_total = None\n\n    def total(self):\n        if self._col_total is None:\n            self._col_total = self.data.sum(axis=0)\n"
+                "        return self._col_total\n\n    def delete_row(self, index: int):\n", "MEMO-COH")
     run_control(ctx, "C08/key-removed", analyse, p.root, pt, "    PT.H_NET_UT.value,\n", "", "T1")
     run_control(ctx, "C08/key-duplicated", analyse, p.root, pt, "    PT.H_HOT_UT.value,\n    PT.H_COLD_UT.value,\n", "    PT.H_HOT_UT.value,\n    PT.H_HOT_UT.value,\n", "T1")
     run_control(ctx, "C08/count-off", analyse, p.root, pt, "        return new_data, inserted_total", "        return new_data, len(interval_map)", "COUNT")
